@@ -267,6 +267,33 @@ def run(ctx):
             key = "C12:TABLE:escapes:%s" % ("write_quoted" if name.endswith("write_quoted") else "KeyScalarSink")
             ctx.check({"\\", '"'} <= cc, "TABLE", key + ":backslash-quote", "`\\\\` and `\\\"` are escaped", "quoted emitter no longer escapes backslash / double quote", config, ctx.where(f))
             ctx.check(ctrl, "TABLE", key + ":control", "every control character goes through an escape arm (⊇ break set)", "quoted emitter no longer escapes arbitrary control characters", config, ctx.where(f))
+        # -- integers: every integer is written by core's Display at its own width (one `{}` argument, no width / fill
+        # specification, no hand-rolled digit grouping); narrower types delegate to the 64-bit method by a widening cast
+        ni_ = 0
+        for sink in ("<&mut ser::YamlSerializer as serde::Serializer>::", "<&mut ser::KeyScalarSink as serde::Serializer>::"):
+            for ty in ("i64", "u64", "i128", "u128"):
+                g = fx.fn(sink + "serialize_" + ty)
+                ctx.saw(g)
+                ni_ += 1
+                disp = [(t["f"].get("args") or ["", ""])[-1] for b, t in g.calls() if last_seg(fx.callee(t)) == "new_display"]
+                other = sorted({last_seg(fx.callee(t)) for b, t in g.calls() if last_seg(fx.callee(t)) in ("new_v1_formatted", "new_lower_hex", "new_upper_hex", "new_debug", "new_lower_exp", "new_octal", "new_binary") or "Placeholder" in fx.callee(t)})
+                helpers = sorted({fx.callee(t) for b, t in g.calls() if fx.callee(t).startswith("ser::") and "write_" in fx.callee(t) and ("dec" in fx.callee(t) or "int" in fx.callee(t) or "digit" in fx.callee(t))})
+                def _is_v(t):
+                    with g.deep():
+                        r = render(g.sym_operand(t["args"][0]))
+                    return r.lstrip("&") in ("v", "tuple::None{v}.0", "tuple::None{&v}.0")
+                argok = all(_is_v(t) for b, t in g.calls() if last_seg(fx.callee(t)) == "new_display")
+                ctx.check(disp == [ty] and not other and not helpers and argok, "TABLE", "C12:INT:%s:%s" % (sink.split(" as ")[0].split("::")[-1], ty), "serialize_%s writes `{}` of the %s value (core Display)" % (ty, ty),
+                          "serialize_%s does not write the value through core's Display at its own type (display arguments %s, formatting specs %s, helpers %s): digits can be lost, padded or regrouped" % (ty, disp, other, helpers), config, ctx.where(g))
+            for ty, wide in (("i8", "i64"), ("i16", "i64"), ("i32", "i64"), ("u8", "u64"), ("u16", "u64"), ("u32", "u64")):
+                g = fx.fn(sink + "serialize_" + ty)
+                ni_ += 1
+                tgt = [fx.callee(t) for b, t in g.calls() if fx.callee(t).startswith(sink + "serialize_")]
+                casts = [s_["rv"] for b, i, s_ in g.stmts() if s_["k"] == "assign" and s_["rv"]["k"] == "cast" and s_["rv"].get("ck") == "IntToInt"]
+                okw = tgt == [sink + "serialize_" + wide] and all(c.get("from") == ty and c.get("ty") == wide for c in casts) and len(casts) == 1
+                ctx.check(okw, "TABLE", "C12:INT:%s:%s" % (sink.split(" as ")[0].split("::")[-1], ty), "serialize_%s widens to %s and delegates" % (ty, wide),
+                          "serialize_%s no longer delegates to serialize_%s through a widening cast (calls %s, casts %s)" % (ty, wide, tgt, [(c.get("from"), c.get("ty")) for c in casts]), config, ctx.where(g))
+        ctx.floor("INT.methods", ni_, 20, config)
         # -- line-oriented emitters: block scalar bodies
         rule_block_guard(ctx, fx, config, breaks, "C12")
 
